@@ -627,8 +627,13 @@ def m_str_parse(e,run,a,f):
         if len(digs)>=20:
             if run.branch_bool(Bool(z3.UGE(acc,z3.BitVecVal(1<<64,128))),'parseoverflow'): return err(Opaque('ParseIntError'))
         return ok(Int(64,False,z3.simplify(z3.Extract(63,0,acc))))
+    c=e.impl_index.get(('FromStr',e.src.qualify(last_ident_(ty),ty),'from_str'))
+    if c and len(c)==1: return e.call_fn(run,c[0],[a[0] if isinstance(a[0],Ref) else Ref(Cell(a[0]))])
     raise Unsupported('parse::<%s>'%ty)
 
+def last_ident_(t):
+    from .srcindex import last_ident
+    return last_ident(t)
 def range_of(r,n):
     """(lo,hi) of a Range/RangeFrom/RangeTo/RangeFull Agg, concrete"""
     r=deref(r)
@@ -1916,3 +1921,13 @@ def register_digest(E):
 _old_register_all14=register_all
 def register_all(E):
     register_digest(E); _old_register_all14(E)
+def m_into_vec_u8(e,run,a,f):
+    v=deref(a[0])
+    if isinstance(v,VecO): return v
+    return u8vec(byte_list(v))
+def register_misc7(E):
+    E.model(r'^<.* as Into<Vec<u8>>>::into$',m_into_vec_u8)
+    E.model(r'^<.* as Into<(std::string::)?String>>::into$',m_from_str_into_string)
+_old_register_all15=register_all
+def register_all(E):
+    _old_register_all15(E); register_misc7(E)
